@@ -8,7 +8,7 @@ Oracle: (independent of the model) every writer call OK => the file re-opens in 
 Tie:    the extracted writer model predicts the statuses of every call and the FILE BYTES exactly for
         UNCOMPRESSED / SNAPPY / LZ4, and the page structure after decompression for GZIP / ZSTD.
 """
-import json, random, sys
+import json, os, random, sys
 from pathlib import Path
 import vlib
 from vlib import Report, prelude, log
@@ -57,6 +57,23 @@ def check_cases(rep, cases, tier, rng, corpus_n=0):
             seen.add(i)
             rep.violation(f"write-then-read differs ({m}, read_batch({b})) for {cases[i].name}: {diff}",
                           {"case": fc.case_to_json(cases[i]), "mode": m, "batch": b, "kind": "roundtrip"})
+    # columns read SIDE BY SIDE on the FILE* path (the column readers share the reader's stream): every corpus case
+    # and every third generated case with 2..15 columns
+    sel = [(cases[i], res[i][1]) for i in range(len(cases))
+           if res[i][1] is not None and res[i][0].fault is None and res[i][0].all_ok() and fc.expected_table(cases[i])
+           and 2 <= len(cases[i].schema.columns) <= 15 and (i < corpus_n or i % 3 == 0)]
+    scripts, tmps, infos = wc.rowwise_scripts(sel, rng)
+    outs = fc.run_scripts(scripts) if scripts else []
+    for t in tmps:
+        if t and os.path.exists(t):
+            os.unlink(t)
+    for (case, k, plan), out in zip(infos, outs):
+        diff = wc.rowwise_compare(case, plan, out)
+        if diff:
+            rep.violation(f"write-then-read differs when the columns are read side by side (stdio, read_batch({k}) on each column "
+                          f"in turn) for {case.name}: {diff}",
+                          {"case": fc.case_to_json(case), "mode": "stdio", "batch": k, "kind": "rowwise"})
+    dist["rowwise_reads"] = len(infos)
     rep.cov.setdefault("input_distribution", {}).update(dist)
     return [(c, st, data) for c, (st, data) in zip(cases, res)]
 
@@ -88,8 +105,7 @@ def run(tier):
     cases = [c for _, c, _ in corpus] + wc.gen_cases(tier, rng)
     log(f"C01: {len(cases)} write histories ({len(corpus)} from the corpus)")
     written = check_cases(rep, cases, tier, rng, corpus_n=len(corpus))
-    if tier == "thorough":
-        wc.check_limits(rep, PID)
+    wc.check_limits(rep, PID, columns=(tier == "thorough"))      # 100001 row groups: quick too (about 6 s)
     for c in (cases[len(corpus)], cases[len(cases) // 2], cases[-1]):
         rep.sample(wc.case_summary(c))
     wc.model_tie(rep, written)
@@ -114,6 +130,15 @@ def replay(path):
     if data is None:
         print("no file")
         return 1
+    if r.get("kind") == "rowwise":
+        scripts, tmps, infos = wc.rowwise_scripts([(case, data)], random.Random(0), k=r.get("batch", 3))
+        out = fc.run_scripts(scripts)[0]
+        for t in tmps:
+            if t and os.path.exists(t):
+                os.unlink(t)
+        diff = wc.rowwise_compare(case, infos[0][2], out)
+        print(f"  stdio, columns side by side, read_batch({infos[0][1]}):", diff or "equal to the written table")
+        return 1 if diff else 0
     bad = 0
     modes = [r["mode"]] if r.get("mode") else fc.MODES
     for m in modes:
